@@ -19,6 +19,7 @@ EXPLANATION = (
     "exception isolation in the three _notify_subscribers (C07.R7 re-used). Ordering between concurrently completing callbacks is not decided."
     ' Added later: R3 also demands that a subscriber container is read when the notification is issued - no await between reading it and calling the subscribers (unsubscribing stops further calls).'
     ' Rounds 7-8: R1 also: the change test is reached on every normal path (no other condition decides first whether a change is reported).'
+    ' Rounds 9-10: R9 (C07.R2/R7 re-used): a reset issued by another task cancels nothing, and nothing a subscriber raises - nor a collected gather() result - leaves the notifier.'
 )
 ASSUMPTIONS = ["dataclass __eq__ compares all fields (the records are @dataclass without eq=False)", "set.add is idempotent, set.discard removes"]
 FLOORS = {"C12.R1": 27, "C12.R2": 9, "C12.R3": 8, "C12.R4": 20, "C12.R5": 3, "C12.R6": 1, "C12.R7": 1, "C12.R8": 1, "C12.R9": 1}
